@@ -250,23 +250,25 @@ def filter_ignore_block(text: str) -> str:
     REUSE_IGNORE_END to remove lines that should not be treated as copyright and
     licensing information.
     """
-    ignore_start = None
-    ignore_end = None
-    if REUSE_IGNORE_START in text:
-        ignore_start = text.index(REUSE_IGNORE_START)
-    if REUSE_IGNORE_END in text:
-        ignore_end = text.index(REUSE_IGNORE_END) + len(REUSE_IGNORE_END)
-    if ignore_start is None:
-        return text
-    if ignore_end is None:
-        return text[:ignore_start]
-    if ignore_end > ignore_start:
-        return text[:ignore_start] + filter_ignore_block(text[ignore_end:])
-    rest = text[ignore_start + len(REUSE_IGNORE_START) :]
-    if REUSE_IGNORE_END in rest:
-        ignore_end = rest.index(REUSE_IGNORE_END) + len(REUSE_IGNORE_END)
-        return text[:ignore_start] + filter_ignore_block(rest[ignore_end:])
-    return text[:ignore_start]
+    # Blocks follow one another in any number: walk through the text instead
+    # of recursing once per block.
+    kept = []
+    position = 0
+    while True:
+        ignore_start = text.find(REUSE_IGNORE_START, position)
+        if ignore_start == -1:
+            kept.append(text[position:])
+            break
+        kept.append(text[position:ignore_start])
+        # A stray end marker before the start marker has no effect: the block
+        # ends at the first end marker behind its start marker.
+        ignore_end = text.find(
+            REUSE_IGNORE_END, ignore_start + len(REUSE_IGNORE_START)
+        )
+        if ignore_end == -1:
+            break
+        position = ignore_end + len(REUSE_IGNORE_END)
+    return "".join(kept)
 
 
 def contains_reuse_info(text: str) -> bool:
